@@ -36,7 +36,7 @@ func configs(quick bool) []Cfg {
 		Signals: both, Init: []string{"100", "100"},
 		Tokens: [][]string{{"100", "105"}, {"100"}},
 		Funds:  []int64{1, tssTotal}, FundCap: 3 * tssTotal, Toggle: true, Trigger: true,
-		Dts:    []int64{1, 2}, Depth: 6}
+		Dts: []int64{1, 2}, Depth: 6}
 	fundBase := fund
 	fundBase.Name = "funds-base-only"
 	fundBase.Tunnels = []TunnelCfg{{Route: "tss", Signals: sigs(100, 300, 300, 300), Interval: 2, Balance: baseFee}}
@@ -47,7 +47,7 @@ func configs(quick bool) []Cfg {
 			{Route: "tss", Signals: sigs(100, 300, 300, 300), Interval: 2, Balance: 10 * tssTotal},
 			{Route: "tss", Signals: sigs(300, 300, 100, 300), Interval: 4, Balance: 10 * tssTotal}},
 		Signals: both, Init: []string{"100", "100"},
-		Tokens: [][]string{{"100", "105"}, {"100"}},
+		Tokens:  [][]string{{"100", "105"}, {"100"}},
 		Trigger: true, Dts: []int64{2}, Depth: 6}
 	// 5. no signing group at all: every send fails after the base fee was taken and the sequence advanced inside the attempt.
 	nog := Cfg{Name: "no-group", Group: false,
@@ -55,14 +55,14 @@ func configs(quick bool) []Cfg {
 		Signals: both, Init: []string{"m", "100"},
 		Tokens: [][]string{{"m", "100", "105"}, {"100"}},
 		Funds:  []int64{baseFee}, FundCap: 2 * baseFee, Trigger: true, Toggle: true,
-		Dts:    []int64{1, 2}, Depth: 5}
+		Dts: []int64{1, 2}, Depth: 5}
 	// 6. mixed: an IBC tunnel without channel (always fails) next to a TSS tunnel (succeeds) in the same blocks.
 	mix := Cfg{Name: "ibc+tss", Group: true, InitDE: 8,
 		Tunnels: []TunnelCfg{
 			{Route: "ibc", Signals: sigs(100, 300, 300, 300), Interval: 2, Balance: 3 * baseFee},
 			{Route: "tss", Signals: sigs(300, 300, 100, 300), Interval: 2, Balance: 10 * tssTotal}},
 		Signals: both, Init: []string{"100", "m"},
-		Tokens: [][]string{{"100", "105", "m"}, {"m", "100"}},
+		Tokens:  [][]string{{"100", "105", "m"}, {"m", "100"}},
 		Trigger: true, Dts: []int64{1, 2}, Depth: 5}
 	if quick {
 		return []Cfg{dev, itv, fund, fundBase, non, nog, mix}
